@@ -40,6 +40,22 @@ def floors(tier):
 
 
 # ---------------- snapshots ----------------------------------------------------------
+def _pack(obj):
+    import base64
+    import json
+    import zlib
+
+    return base64.b64encode(zlib.compress(json.dumps(obj).encode("utf-8"), 9)).decode("ascii")
+
+
+def _unpack(text):
+    import base64
+    import json
+    import zlib
+
+    return json.loads(zlib.decompress(base64.b64decode(text)).decode("utf-8"))
+
+
 def kg_snapshot(kg):
     tiers = []
     for name in kg.tierNames:
@@ -57,6 +73,28 @@ def kg_snapshot(kg):
         else:
             tiers.append({"name": name, "min": t.minTimestamp, "max": t.maxTimestamp, "entries": [tuple(e) for e in t.entries]})
     return {"min": kg.minTimestamp, "max": kg.maxTimestamp, "tiers": tiers}
+
+
+def kg_consistent(s):
+    """the spans a snapshot declares contain what lies beneath them (points in their tier, sub-tiers in their group, tiers in the grid)
+    and a group's span is the union of its sub-tiers' spans - what every grid read from a well-formed file satisfies"""
+    try:
+        for t in s["tiers"]:
+            if t["min"] is None or t["max"] is None or not (s["min"] <= t["min"] and t["max"] <= s["max"]):
+                return False
+            if "inter" not in t:
+                if not all(t["min"] <= e[0] <= t["max"] for e in t["entries"]):
+                    return False
+                continue
+            subs = [st for it in t["inter"] for st in it["subs"]]
+            for st in subs:
+                if st["min"] is None or st["max"] is None or not all(st["min"] <= e[0] <= st["max"] for e in st["entries"]):
+                    return False
+            if subs and (min(st["min"] for st in subs) != t["min"] or max(st["max"] for st in subs) != t["max"]):
+                return False
+        return True
+    except TypeError:
+        return False
 
 
 def insert_subtier(kg, ins):
@@ -169,10 +207,33 @@ def _open_pre(ctx):
         return SKIP
     if strings[:2] != ["ooTextFile", "KlattGrid"]:
         return SKIP
+    try:
+        import re
+
+        lo = hi = None
+        for m in re.finditer(r"^\s*(xmin|xmax|number) = (\S+)\s*$", text, re.M):
+            v = float(m.group(2))
+            if m.group(1) == "xmin":
+                lo = v
+            elif m.group(1) == "xmax":
+                hi = v
+            elif lo is not None and hi is not None and not lo <= v <= hi:
+                # a point outside the span its own tier declares: not a well-formed KlattGrid (such a file comes out of a tree in
+                # which an earlier step has already been reported), the reader is not judged on it
+                REC.skip("kg.open", "point-outside-the-span-its-tier-declares")
+                return SKIP
+    except ValueError:
+        pass
+    if _bad_saves.get(os.path.abspath(str(fn))) == text:
+        # this very text was written by a save that has just been reported: the reader is not judged on a file that does not say
+        # what was in memory (and a replay of "opening this file" would accuse the reader of any tree)
+        REC.skip("kg.open", "file-written-by-a-save-that-was-reported")
+        return SKIP
     return (fn, text, stream)
 
 
 _current = {"classes": [], "sig": None}
+_bad_saves = {}  # path -> text written there by a save whose output was reported as wrong
 
 
 def _open_post(ctx):
@@ -217,7 +278,8 @@ def _save_post(ctx):
     s, fn = ctx.pre
     sig = _current["sig"] or ("kg.save",)
     sig = ("save",) + tuple(sig)
-    case = {"call": "kg.save", "snapshot": s if sum(len(t.get("entries", [])) for t in s["tiers"]) < 200 else None,
+    big = len(flatten(s)) >= 600
+    case = {"call": "kg.save", "snapshot": s if not big else None, "snapshot_zb64": _pack(s) if big else None,
             "inserted": _current.get("inserted")}
     mech = {"op": "kg.save", "exc": type(ctx.exc).__name__ if ctx.exc else None}
     REC.outcome("kg.save", ctx.exc)
@@ -238,8 +300,10 @@ def _save_post(ctx):
         if why is None and K.section_names(text) != [t["name"] for t in s["tiers"]]:
             why = "sections %r, tiers in memory %r" % (K.section_names(text), [t["name"] for t in s["tiers"]])
     if why:
+        _bad_saves[os.path.abspath(str(fn))] = text
         REC.violation(PROP, "kg.save", "Klattgrid.save", case, "the saved file's number stream (left) differs from the grid in memory (right): %s" % why, sig, mech)
     else:
+        _bad_saves.pop(os.path.abspath(str(fn)), None)
         REC.held("kg.save", sig, None, None)
 
 
@@ -260,8 +324,14 @@ def modify(kg, container, inter_name, fname, f, work, k, last_sub, direct=False)
     from praatio import klattgrid
 
     before = kg_snapshot(kg)
+    if not kg_consistent(before):
+        # (a grid that an earlier, already reported step left inconsistent is not an input whose consequences are judged again)
+        REC.skip("kg.modify", "grid-already-inconsistent")
+        return None
     rec = Recorder(f)
-    case = {"call": "kg.modify", "container": container, "inter": inter_name, "func": fname, "grid": before}
+    big = len(flatten(before)) >= 600
+    case = {"call": "kg.modify", "container": container, "inter": inter_name, "func": fname, "grid": before if not big else None,
+            "grid_zb64": _pack(before) if big else None, "direct": direct}
     sig = ("modify", container, inter_name, fname, last_sub)
     mech = {"op": "kg.modify", "func": fname}
     try:
@@ -666,14 +736,18 @@ def replay(v, work):
                 REC.violation(PROP, "kg.save", "KlattSubPointTier", c, "a sub-tier built from an iterable of points does not hold them", ("subtier-points",), {"op": "kg.subtier"})
             else:
                 REC.held("kg.save", ("subtier-points",), None, None)
-        elif c["call"] == "kg.save" and c.get("snapshot"):
-            call(rebuild_kg(c["snapshot"], c.get("inserted")).save, os.path.join(str(work), "replay_out.KlattGrid"))
+        elif c["call"] == "kg.save" and (c.get("snapshot") or c.get("snapshot_zb64")):
+            call(rebuild_kg(c.get("snapshot") or _unpack(c["snapshot_zb64"]), c.get("inserted")).save, os.path.join(str(work), "replay_out.KlattGrid"))
         elif c["call"] == "kg.modify":
-            # rebuild the grid as a file from its snapshot is not possible in general: re-run on the reference file
-            repo = os.environ.get("PRAATIO_REPO", "/repo")
-            kg = call(klattgrid.openKlattgrid, os.path.join(repo, "tests", "files", "bobby.KlattGrid"))
+            grid = c.get("grid") or (_unpack(c["grid_zb64"]) if c.get("grid_zb64") else None)
+            if grid is not None:
+                with core.paused():
+                    kg = rebuild_kg(grid)  # the grid as it was in memory, assembled through the API
+            else:
+                repo = os.environ.get("PRAATIO_REPO", "/repo")
+                kg = call(klattgrid.openKlattgrid, os.path.join(repo, "tests", "files", "bobby.KlattGrid"))
             if kg is not None and c["func"] in FUNCS and c["container"] in kg.tierNames:
-                modify(kg, c["container"], c["inter"], c["func"], FUNCS[c["func"]], work, 0, c["inter"] == "bandwidths")
+                modify(kg, c["container"], c["inter"], c["func"], FUNCS[c["func"]], work, 0, c["inter"] == "bandwidths", direct=bool(c.get("direct")))
 
 
 CLASSIFIERS = {
